@@ -9,7 +9,7 @@ from ref import codec as C
 PROPERTY = 'C13'
 LEVEL = 'exploration'
 RULE = ('cases = claim histories of one CA (bypassed / immediate range / veto range; arbitrary-address-capable or not) driven by a scripted contender '
-        '(no contender, lower NAME claiming during the veto window, lower NAME claiming after the CA is operational, higher NAME claiming, two successive lower-NAME claims for the preferred and the re-claimed address; preferred addresses incl. the range boundaries 0, 127, 128, 247, 248, 253) on either '
+        '(no contender, lower NAME claiming during the veto window, lower NAME claiming after the CA is operational, higher NAME claiming, two successive lower-NAME claims for the preferred and the re-claimed address, a lower-NAME claim against a bypassed CA that was never started and against a CA that was stopped after becoming operational; contender NAMEs whose numeric order is opposite to the order of their low bytes; preferred addresses incl. the range boundaries 0, 127, 128, 247, 248, 253) on either '
         'data link layer; at instants before start, during the claim delay, during WAIT_VETO, operational, 1 ms after a loss, after the re-claim and '
         'in CANNOT_CLAIM every send entry point is called: send_pgn <= 8 bytes, send_pgn > 8 bytes, send_message, send_request(ordinary PGN), '
         'send_request(address-claim PGN), Dm22 request, Dm11.request_clear_all, Dm14Query.read (50 ms time-out), and a Dm1 send cycle at the end; '
@@ -21,7 +21,7 @@ ASSUMPTIONS = ['"holds" is read through the public state / device_address proper
 MIN_OBS = {'calls_nonoperational': {'quick': 10000, 'thorough': 100000}, 'calls_operational': {'quick': 10000, 'thorough': 100000},
            'frames_attributed': {'quick': 15000, 'thorough': 150000}, 'null_address_requests': {'quick': 1000, 'thorough': 12000}}
 
-HISTORIES = ['bypass', 'imm_ok', 'veto_ok', 'veto_lose', 'lose_after', 'win', 'lose_twice']
+HISTORIES = ['bypass', 'imm_ok', 'veto_ok', 'veto_lose', 'lose_after', 'win', 'lose_twice', 'bypass_lose', 'stopped_lose']
 
 
 def cases(tier, seed):
@@ -60,11 +60,12 @@ def run_case(case):
         if rng.random() < 0.5:
             pref = rng.choice([0, 1, 127, 248, 253])
     nv = C.name_value(identity_number=500, function=30, arbitrary_address_capable=case['aac'])
-    ca = W.ca(A, pref, name_value=nv, bypass=(hist == 'bypass'))
-    LOW = C.name_bytes(C.name_value(identity_number=3))
-    LOW2 = C.name_bytes(C.name_value(identity_number=4))
+    ca = W.ca(A, pref, name_value=nv, bypass=(hist in ('bypass', 'bypass_lose')))
+    # contender NAMEs whose numeric order is opposite to the order of their low (first transmitted) bytes
+    LOW = C.name_bytes(C.name_value(identity_number=rng.choice([3, 0xFF, 0x1FFFFF])))
+    LOW2 = C.name_bytes(C.name_value(identity_number=rng.choice([4, 0xFE, 0x1FFFFE])))
     lost = {}          # address -> instant a lower NAME claimed it on the bus (the CA must not send from it afterwards)
-    HIGH = C.name_bytes(C.name_value(identity_number=900, function=200, industry_group=5, arbitrary_address_capable=1))
+    HIGH = C.name_bytes(C.name_value(identity_number=rng.choice([900, 1, 0]), function=200, industry_group=5, arbitrary_address_capable=1))
     dm22 = j.Dm22(ca)
     dm11 = j.Dm11(ca)
     q = j.Dm14Query(ca)
@@ -81,7 +82,7 @@ def run_case(case):
     t_start = 0.3
     delay = rng.choice([0.01, 0.1, 0.3])
     t_claim = t_start + delay
-    if hist != 'bypass':
+    if hist not in ('bypass', 'bypass_lose'):
         sim.at(t_start, ca.start, delay)
     events = []
     if hist == 'veto_lose':
@@ -96,6 +97,15 @@ def run_case(case):
         t_l = t_claim + 0.6
         sim.at(t_l, X.send, C.make_id(6, 0, C.PF_ADDRESS_CLAIM, 255, pref), HIGH, fd)
         events.append(t_l)
+    elif hist in ('bypass_lose', 'stopped_lose'):
+        # the CA is operational without a running claim timer (claim bypassed and never started / stopped after it became operational)
+        # when a lower NAME claims its address: it loses the address all the same
+        t_l = t_claim + 1.0
+        if hist == 'stopped_lose':
+            sim.at(t_claim + 0.7, ca.stop)
+        sim.at(t_l, X.send, C.make_id(6, 0, C.PF_ADDRESS_CLAIM, 255, pref), LOW, fd)
+        events.append(t_l)
+        lost[pref] = t_l
     elif hist == 'lose_twice':
         # loses the preferred address, re-claims the next one, and that one is defended by another lower NAME during the new veto wait
         t_l = t_claim + rng.choice([0.1, 0.8])
@@ -233,13 +243,13 @@ def run_case(case):
             viol.add('frame_without_address', 'frame %s emitted while the CA was in state %r' % (f.brief(), st), **tag)
         elif sa != ad:
             viol.add('wrong_source_address', 'frame %s carries SA %02X but the CA holds %r' % (f.brief(), sa, ad), **tag)
-        elif hist != 'bypass' and sa == pref and 128 <= pref <= 247 and sa in first_claim and f.t < first_claim[sa] + 0.249:
+        elif hist not in ('bypass', 'bypass_lose') and sa == pref and 128 <= pref <= 247 and sa in first_claim and f.t < first_claim[sa] + 0.249:
             # the initial claim of an address in 128..247 completes only after the 250 ms veto time (J1939-81)
             viol.add('sent_before_claim_completed', 'frame %s sent %.1f ms after the initial claim for address %d (veto time 250 ms)'
                      % (f.brief(), (f.t - first_claim[sa]) * 1000, sa), **tag)
         elif sa in lost and f.t > lost[sa] + 0.005:
             viol.add('sent_from_lost_address', 'frame %s carries SA %02X although a lower NAME claimed that address at %.4f' % (f.brief(), sa, lost[sa]), **tag)
-        elif last_claim is not None and sa != last_claim and hist != 'bypass':
+        elif last_claim is not None and sa != last_claim and hist not in ('bypass', 'bypass_lose'):
             viol.add('wrong_source_address', 'frame %s carries SA %02X but the CA\'s last claim on the bus was for %02X' % (f.brief(), sa, last_claim), **tag)
     if st_dm1[0]:
         if not [f for f in dm1_frames if not is_claim(f)]:
